@@ -230,6 +230,10 @@ const BAD_REQUESTS: &[(&str, Option<&str>, &str)] = &[
 ];
 
 fn run(cx: &Cx) {
+    run_inner(cx, None)
+}
+
+fn run_inner(cx: &Cx, only: Option<&J>) {
     let refs = Schema::from_sdl(s1::SDL).unwrap();
     let mut sch = Schemas { stat: vec![], dynm: vec![] };
     for k in 0..=3usize {
@@ -319,6 +323,19 @@ fn run(cx: &Cx) {
             }
         }
     };
+    if let Some(case) = only {
+        let dynamic = case["flavour"] == "dynamic";
+        let text = case["query"].as_str().unwrap_or("");
+        let vars = case["variables"].as_object().cloned().unwrap_or_default();
+        let table = agv_common::glue::table_from_json(&case["world"]);
+        let doc = agv_refgql::parse::parse_exec(text).ok();
+        let expected = doc.as_ref().and_then(|d| {
+            let w = agv_refgql::exec::TableWorld { table: table.clone() };
+            agv_refgql::exec::execute(&refs, d, case["operation"].as_str(), &vars, &mut agv_refgql::exec::TableWorldRef { s: &refs, w: &w }).data
+        });
+        compare(if dynamic { "dynamic" } else { "static" }, dynamic, text, case["operation"].as_str(), &vars, &table, if case["kind"] == "generated" { expected.as_ref() } else { None }, doc.as_ref(), case["kind"].as_str().unwrap_or("generated"));
+        return;
+    }
     for (flavour, dynamic) in [("static", false), ("dynamic", true)] {
         // generated valid documents
         for (op, fields) in [(OpKind::Query, FIELDS), (OpKind::Mutation, M_FIELDS)] {
@@ -359,7 +376,10 @@ fn run(cx: &Cx) {
 }
 
 fn replay(case: &J) -> String {
-    format!("re-run the check; case = {case}")
+    let cx = Cx::scratch("C30", "exploration");
+    run_inner(&cx, Some(case));
+    cx.nontrivial_count(2);
+    cx.finish_scratch()
 }
 
 fn main() {
